@@ -29,3 +29,41 @@ Example C02_examples :
   ceil_idx es [1; 0; 0] 0 = Some (2, ([3], [12])) /\ floor_idx es [1; 0; 0] 0 None = Some (1, ([1; 0], [11])) /\
   find_idx es [2] = None /\ ceil_idx es [4] 0 = None /\ floor_idx es [] 0 None = None.
 Proof. vm_compute. repeat split; reflexivity. Qed.
+
+(* ---- in-block seeks (src/block.rs) on every well-formed block: strictly ascending framed entries
+   and a restart table of entry offsets (ascending, first 0) — in particular every block finished by
+   the block writer (C02_finished_blocks_wellformed).  Whatever the cursor's previous offset: ---- *)
+From Grenad.proofs Require Import BlockProofs BlockCursorProofs.
+
+(* move_on_key_lower_than_or_equal_to returns the entry with the largest key <= q (None iff none) *)
+Theorem C02_block_floor : forall b es ridx o q, wfblock b es ridx ->
+  bc_le (mk_bcur b o) q =
+  Done (mk_bcur b (option_map (start es) (floor_pos es q)),
+        match floor_pos es q with Some i => nth_error es i | None => None end).
+Proof. intros b es ridx o q W. exact (bc_le_spec b es ridx W o q). Qed.
+Print Assumptions C02_block_floor.
+
+(* move_on_key_greater_than_or_equal_to returns the entry with the smallest key >= q (None iff none) *)
+Theorem C02_block_ceiling : forall b es ridx o q, wfblock b es ridx ->
+  bc_ge (mk_bcur b o) q = Done (mk_bcur b (Some (start es (ceil_pos es q))), nth_error es (ceil_pos es q)).
+Proof. intros b es ridx o q W. exact (bc_ge_spec b es ridx W o q). Qed.
+Print Assumptions C02_block_ceiling.
+
+(* floor_pos / ceil_pos are the floor / ceiling of the specification *)
+Theorem C02_positions_are_spec : forall es q,
+  ceil_idx es q 0 = match nth_error es (ceil_pos es q) with Some e => Some (N.of_nat (ceil_pos es q), e) | None => None end /\
+  floor_idx es q 0 None = match floor_pos es q with
+                          | Some i => match nth_error es i with Some e => Some (N.of_nat i, e) | None => None end
+                          | None => None end.
+Proof.
+  intros es q. split.
+  - rewrite ceil_idx_pos. unfold ceil_pos. destruct (nth_error es (fs_ge q es 0)); reflexivity.
+  - rewrite floor_idx_pos. unfold floor_pos. cbv zeta. destruct (Nat.eqb (fs_gt q es 0) 0); [reflexivity|].
+    destruct (nth_error es (fs_gt q es 0 - 1)); reflexivity.
+Qed.
+Print Assumptions C02_positions_are_spec.
+
+Theorem C02_finished_blocks_wellformed : forall w es, bw_ok w es -> 1 <= bw_interval w ->
+  wfblock (mk_block (payload_of es) (rev (bw_offsets w))) es (0%nat :: ridx_gen (bw_interval w) 0 0 es).
+Proof. exact finished_block_wf. Qed.
+Print Assumptions C02_finished_blocks_wellformed.
